@@ -526,7 +526,7 @@ fn c01_narrow_mul_div_floor_u16() {
     w16::mul_div_floor_only();
 }
 
-//@ prop=C01 tier=thorough kind=hold
+//@ prop=C01 tier=experimental kind=hold
 //@ enc=<u16 as MulDiv>::{checked_mul_div,checked_mul_div_ceil} (narrow hook impl mirroring the u64 impl)
 //@ bound=width-reduced T=u16: every u16 operand triple (incl. zero denominator)
 //@ timeout=5400 mem=30
@@ -559,7 +559,7 @@ fn c01_mul_div_signed_numerator_u16() {
     w16::mul_div_signed_numerator();
 }
 
-//@ prop=C01 tier=thorough kind=hold
+//@ prop=C01 tier=experimental kind=hold
 //@ enc=utils::{div_to_factor,div_to_factor_signed}
 //@ bound=width-reduced T=u16, DECIMALS=2: every u16 / i16 operand
 //@ timeout=5400 mem=30
@@ -568,7 +568,7 @@ fn c01_div_to_factor_u16() {
     w16::factors_any_divisor();
 }
 
-//@ prop=C01 tier=thorough kind=hold
+//@ prop=C01 tier=experimental kind=hold
 //@ enc=utils::{usd_to_market_token_amount,market_token_amount_to_usd}
 //@ bound=width-reduced T=u16: every u16 usd value, pool value, supply, divisor, amount
 //@ timeout=5400 mem=30
